@@ -10,3 +10,5 @@ for p in $props; do
 done
 git -C /repo checkout -- . ; git -C /repo clean -fdq -- cmd pkg internal
 echo "refapply done"
+# the runs above rewrote evidence/ from a MODIFIED tree: put the committed (clean-tree) evidence back
+git -C /verif checkout -- evidence
